@@ -379,7 +379,6 @@ func (e *Exec) monitorValidated(j *Judgement, events []*world.Event) {
 	}
 }
 
-
 // monitorPush: what a proposal sends to the device is the change its request named for that target - the same
 // updates with the same values, and deletes of the named paths (plus, possibly, of paths beneath them: the cascade) -
 // whatever later transactions do to the device afterwards (the end-state comparison cannot see a wrong push that a
